@@ -2,7 +2,7 @@
 from . import core
 from .core import Case
 
-WINDOW = ["JOIN_LOCKED", "JOIN_CB_BEFORE_SET", "JOIN_CB_AFTER_UNLOCK", "FIN_BEFORE_LOCK", "FIN_LOCKED",
+WINDOW = ["JOIN_BEFORE_SWITCH", "JOIN_LOCKED", "JOIN_CB_BEFORE_SET", "JOIN_CB_AFTER_UNLOCK", "FIN_BEFORE_LOCK", "FIN_LOCKED",
           "EP_CB_BEFORE_STATUS", "EP_CB_BEFORE_STACKREL", "EP_CB_AFTER_STATUS", "CREATE1_ENTER",
           "YIELD_CB_BEFORE_PUT", "Q_POP_AFTER_DEC", "Q_TAKE_AFTER_INC"]
 AMPL = ["CREATE_AFTER_PARENT_PUSH", "CREATE_PF_AFTER_PUSH", "JOIN_BEFORE_POP", "FIN_BEFORE_POP",
